@@ -327,6 +327,12 @@ func c07YAMLFeatures(e *Env) {
 		{"unquoted-and-single-quoted-scalars", "- chord:\n    degree: 5\n    name: '7'\n  values:\n    - 1\n  bpm: 90\n  velocity: ff\n  key: Eb\n  meta:\n    txt: hi\n", inst(set)},
 		{"document-start-marker", "---\n" + inst(set), inst(set)},
 	}
+	// texts that look like numbers, dates or booleans, typed without quotes: the text event carries what was typed
+	for _, t := range [][3]string{{"007", "1.50", "0x1F"}, {"1_000", "2001-01-01", "true"}, {"1e3", ".5", "No"}, {"+1", "0o7", "1:30"}, {"0b11", "1.0e+2", "Off"}} {
+		un := fmt.Sprintf("  meta:\n    txt: %s\n    lic: %s\n    mrk: %s\n", t[0], t[1], t[2])
+		qu := fmt.Sprintf("  meta:\n    txt: %q\n    lic: %q\n    mrk: %q\n", t[0], t[1], t[2])
+		pairs = append(pairs, struct{ name, feat, plain string }{"unquoted-text-that-looks-like-a-number", inst(un) + inst(""), inst(qu) + inst("")})
+	}
 	flagSets := [][]string{nil, {"--bpm", "77"}, {"--key", "A"}, {"-k", "A"}, {"--velocity", "p", "--key", "F#m"}, {"--bpm", "61", "--bpm", "77"}}
 	var cases []c07YAMLCase
 	for _, p := range pairs {
@@ -344,7 +350,7 @@ func c07YAMLFeatures(e *Env) {
 		e.R.Trace(1)
 		e.R.NonTrivialN(1)
 	})
-	e.R.AddPart(ev.Part{Name: "yaml-spellings", Enumerated: "6 YAML spellings (alias of an instance / of values / of settings and meta, flow style with comments, unquoted and single-quoted scalars, document-start marker) x 6 flag sets (incl. -k and a repeated flag) x {in-process, real binary}: same bytes as the plain spelling", Executions: int64(len(cases)), Exhaustive: true})
+	e.R.AddPart(ev.Part{Name: "yaml-spellings", Enumerated: "11 YAML spellings (alias of an instance / of values / of settings and meta, flow style with comments, unquoted and single-quoted scalars, document-start marker, texts typed without quotes that look like numbers, dates or booleans) x 6 flag sets (incl. -k and a repeated flag) x {in-process, real binary}: same bytes as the plain spelling", Executions: int64(len(cases)), Exhaustive: true})
 }
 
 func runC07(e *Env) {
@@ -550,6 +556,7 @@ func runC07(e *Env) {
 	e.R.AddPart(ev.Part{Name: "flags-x-documents", Enumerated: fmt.Sprintf("16 subsets of {--bpm,--meter,--key,--velocity} x 256 documents (each of the 4 settings present/absent on instance 0 and on instance 1): in-process all 4096, real binary every %d-th; plus 15 non-empty flag subsets x 4 documents whose first instance is a rest (real binary, all)", step), Executions: int64(len(fcases)), Exhaustive: true})
 
 	c07YAMLFeatures(e)
+	runYAMLForms(e, "C07")
 	runLong(e, 16, func(c *playCase) { c07Eval(e, m, c, true) })
 	c07ArgsGraph(e)
 	var ks []string
